@@ -38,6 +38,7 @@ VALUES = [I(-1), I(0), I(1), I(2), I(3), F(0), F(15), F(-25), F(20), F(25), F(-5
           V("list", c=[I(1), I(2)]),
           M([]), M([("a", I(1))]), M([("a", I(1))], "sym"), M([("a", S("x")), ("b", I(2))]), M([("a", S("x")), ("b", S("y"))], "json"),
           M([("a", B(True)), ("b", I(0)), ("c", I(5))]),
+          M([("a", V("nil"))]), M([("a", V("nil")), ("b", I(2))], "sym"),          # a key that is PRESENT and bound to ()
           V("fun"), V("bytes", 0, ""), V("bytes", 2, "ab")]
 
 
